@@ -437,8 +437,8 @@ pub fn run_case(p: &Program, rules: &[FlatRule], exe: &std::path::Path, c: &Case
 pub fn run_c17(tier: &str, seed: u64) -> campaign::CampaignResult {
     let start = Instant::now();
     let thorough = tier == "thorough";
-    let np = std::env::var("EQV_NPROG").ok().and_then(|v| v.parse().ok()).unwrap_or(if thorough { 800 } else { 48 });
-    let nc = std::env::var("EQV_NHIST").ok().and_then(|v| v.parse().ok()).unwrap_or(if thorough { 300 } else { 100 });
+    let np = std::env::var("EQV_NPROG").ok().and_then(|v| v.parse().ok()).unwrap_or(if thorough { 500 } else { 48 });
+    let nc = std::env::var("EQV_NHIST").ok().and_then(|v| v.parse().ok()).unwrap_or(if thorough { 200 } else { 100 });
     let known = KnownFindings::load();
     // the trigger of the known finding is excluded by construction unless it is not listed any more
     let late_allowed = known.known("C17", "C17:late-morphism-inherited-tuples-are-old").is_none();
